@@ -243,7 +243,16 @@ func execute(env *work.Env, w *work.Workload, runSeed, idx uint64, tape *core.Ta
 	func() {
 		defer func() {
 			if e := recover(); e != nil {
-				infra = fmt.Sprintf("workload %s run %d (seed %d) panicked outside a guarded call: %v\n%s", w.Name, idx, runSeed, e, debug.Stack())
+				stack := string(debug.Stack())
+				if fn := libraryPanicSite(stack); fn != "" && !strings.HasPrefix(fmt.Sprint(e), "harness:") {
+					// The library itself panicked while the workload was using it in a way every
+					// workload considers well-formed (workloads guard the calls whose panics are
+					// part of what they decide).  That is a failure of the operation under the
+					// run's property, not an infrastructure problem.
+					r.Fail("library-panic", fn, "the library panicked during well-formed use: %v (in %s)", e, fn)
+					return
+				}
+				infra = fmt.Sprintf("workload %s run %d (seed %d) panicked outside a guarded call: %v\n%s", w.Name, idx, runSeed, e, stack)
 			}
 		}()
 		w.Run(env, r)
@@ -273,6 +282,34 @@ func execute(env *work.Env, w *work.Workload, runSeed, idx uint64, tape *core.Ta
 		}
 	}
 	return r, ""
+}
+
+// libraryPanicSite returns the innermost non-runtime function of a panic stack if it
+// belongs to the library under test, "" otherwise.
+func libraryPanicSite(stack string) string {
+	lines := strings.Split(stack, "\n")
+	seenPanic := false
+	for _, ln := range lines {
+		if strings.HasPrefix(ln, "panic(") {
+			seenPanic = true
+			continue
+		}
+		if !seenPanic || strings.HasPrefix(ln, "\t") || strings.HasPrefix(ln, "runtime.") || strings.HasPrefix(ln, "runtime/") {
+			continue
+		}
+		fn := ln
+		if i := strings.LastIndexByte(fn, '('); i > 0 {
+			fn = fn[:i]
+		}
+		// frames of the standard library between the panic and its caller (e.g. crypto/sha512) are skipped
+		if strings.Contains(fn, "oasisprotocol/curve25519-voi/") {
+			return strings.TrimPrefix(fn, "github.com/oasisprotocol/curve25519-voi/")
+		}
+		if strings.HasPrefix(fn, "verifsim/") || strings.HasPrefix(fn, "main.") {
+			return ""
+		}
+	}
+	return ""
 }
 
 func rerunTrace(env *work.Env, w *work.Workload, runSeed, idx uint64, tape *core.Tape) []string {
